@@ -669,6 +669,18 @@ class Body:
             if top:
                 self._memo_active = False
 
+    def origin_of_stmt(self, site):
+        """Origin of the value assigned by the statement at `site` (any lhs)."""
+        top = not getattr(self, '_memo_active', False)
+        if top:
+            self._memo_active = True
+            self._origin_cache = {}
+        try:
+            return self._origin_of_def(site, site.stmt, 0)
+        finally:
+            if top:
+                self._memo_active = False
+
     def _origin_of_local(self, l, depth):
         if 1 <= l <= self.argc:
             defs = self.whole_defs(l)
